@@ -115,6 +115,7 @@ pub struct Trace {
     pub i2_trigger: bool,
     pub callee_stack_write: bool,
     pub xadds: u64,
+    pub neg_ld_imm: u64,
     pub far_jump: bool,
     pub mod32_zero_upper: bool,
     pub depth_hist: [u32; 10],
@@ -126,6 +127,10 @@ pub struct Trace {
 pub struct Quirks {
     /// interpreter quirk I2: immediates of 64-bit JEQ/JNE/JGT/JGE/JLT/JLE are zero-extended
     pub zx_jmp_imm: bool,
+    /// read a negative immediate of ldabs/ldind as its zero-extended 32-bit pattern (what the
+    /// interpreter does) instead of declaring the run outside the claim. Used by the engine
+    /// differentials C03/C04, whose premise is "the interpreter returns a value, in bounds".
+    pub ld_neg_imm_zx: bool,
 }
 
 pub struct Machine<'a> {
@@ -519,10 +524,13 @@ impl<'a> Machine<'a> {
                     let nbytes = size_bytes(x.opc);
                     self.trace.mem_accesses += 1;
                     self.trace.regs_used |= 1;
-                    if x.imm < 0 {
+                    if x.imm < 0 && !self.quirks.ld_neg_imm_zx {
                         // the statement does not say how a negative immediate is read here
                         // (the engines differ): outside the claim - DESIGN 6.4
                         return MOut::Undefined("packet-load-negative-immediate");
+                    }
+                    if x.imm < 0 {
+                        self.trace.neg_ld_imm += 1;
                     }
                     let mut off = x.imm as u32 as u64;
                     if kind == Kind::LdInd {
